@@ -96,7 +96,10 @@ func (c *Ctx) havoc(st *State, m *ModSet, why string) {
 			continue
 		}
 		es := c.heapSort[hn]
-		onlyLocs := !m.heapAll[hn] && len(m.fields[hn]) == 0 && !m.elems[hn] && len(m.regions[hn]) == 0 && !m.alloc
+		// Allocation inside the havocked code needs no frame clause: cells of objects that did
+		// not exist before are unconstrained in the pre-heap already (facts about fresh cells
+		// are only ever added, guarded, for the object at the current allocation counter).
+		onlyLocs := !m.heapAll[hn] && len(m.fields[hn]) == 0 && !m.elems[hn] && len(m.regions[hn]) == 0
 		if onlyLocs {
 			h := cur
 			for _, l := range m.locs[hn] {
@@ -134,9 +137,6 @@ func (c *Ctx) havoc(st *State, m *ModSet, why string) {
 			mods = append(mods, fmt.Sprintf("(= p %s)", l.S))
 		}
 		mods = append(mods, m.regions[hn]...)
-		if m.alloc {
-			mods = append(mods, fmt.Sprintf("(>= (rootid p) %s)", st.alloc.S))
-		}
 		c.assume(Term{fmt.Sprintf("(forall ((p Ptr)) (! (=> (not (or %s false)) (= (select %s p) (select %s p))) :pattern ((select %s p))))",
 			strings.Join(mods, " "), n.S, cur.S, n.S), SBool})
 	}
@@ -198,6 +198,8 @@ func (fr *Frame) collectWrites(blocks []*ssa.BasicBlock, m *ModSet, avail func(s
 				} else {
 					m.heapAll[heapName(SInt)] = true
 				}
+			case *ssa.Select:
+				m.ghosts["select"] = true
 			case *ssa.Go:
 				// spawned code runs outside the sequential model
 			case *ssa.Defer:
@@ -211,6 +213,12 @@ func (fr *Frame) collectWrites(blocks []*ssa.BasicBlock, m *ModSet, avail func(s
 
 func (fr *Frame) addWrite(m *ModSet, addr ssa.Value, vt types.Type, avail func(ssa.Value) bool) {
 	c := fr.c
+	// a store into an object allocated inside the havocked code: the object does not exist at
+	// the havoc point, nothing to forget
+	if root := rootValue(addr); isAllocation(root) && !avail(root) {
+		m.alloc = true
+		return
+	}
 	for _, lp := range c.leafPaths(vt) {
 		srt := c.sortOf(lp.t)
 		hn := heapName(srt)
@@ -287,8 +295,16 @@ func (fr *Frame) callWrites(x ssa.CallInstruction, m *ModSet, avail func(ssa.Val
 		return
 	}
 	res := fr.resolveCallee(cc)
+	// ghost-at anchors of the function under verification that hang on this call
+	if top := fr.topFrame(); top.fc != nil {
+		for _, g := range top.fc.GhostAts {
+			if g.Callee != "" && calleeMatches(res, g.Callee) {
+				m.ghosts[g.Var] = true
+			}
+		}
+	}
 	if res.fc != nil && !res.fc.Inline {
-		fr.contractWrites(res.fc, m)
+		fr.contractWritesAt(res, cc, m, avail, depth)
 		return
 	}
 	if res.pure {
@@ -301,7 +317,161 @@ func (fr *Frame) callWrites(x ssa.CallInstruction, m *ModSet, avail func(ssa.Val
 		delete(seen, res.fn)
 		return
 	}
+	fr.c.note("call of %s inside a loop/inlined body has no contract: loop havocs all heaps", shortKey(res.key))
 	m.all = true
+}
+
+// rootValue follows address/interface derivations back to the value they are derived from.
+func rootValue(v ssa.Value) ssa.Value {
+	for {
+		switch x := v.(type) {
+		case *ssa.MakeInterface:
+			v = x.X
+		case *ssa.ChangeInterface:
+			v = x.X
+		case *ssa.ChangeType:
+			v = x.X
+		case *ssa.FieldAddr:
+			v = x.X
+		case *ssa.IndexAddr:
+			v = x.X
+		case *ssa.Slice:
+			v = x.X
+		case *ssa.Convert:
+			v = x.X
+		default:
+			return v
+		}
+	}
+}
+
+func isAllocation(v ssa.Value) bool {
+	switch v.(type) {
+	case *ssa.Alloc, *ssa.MakeSlice, *ssa.MakeMap, *ssa.MakeChan:
+		return true
+	}
+	return false
+}
+
+// rootParam finds the parameter name a modifies clause hangs on.
+func rootParam(e Expr) string {
+	switch x := e.(type) {
+	case EIdent:
+		return x.Name
+	case ESel:
+		return rootParam(x.X)
+	case EDeref:
+		return rootParam(x.X)
+	case EIndex:
+		return rootParam(x.X)
+	case ECall:
+		if len(x.Args) > 0 {
+			return rootParam(x.Args[0])
+		}
+	}
+	return ""
+}
+
+// contractWritesAt over-approximates the effect of a call by contract inside a loop: targets
+// rooted in objects allocated inside the loop need no havoc at the header (they do not exist
+// yet); targets that are available at the header are havocked precisely; the rest by type.
+func (fr *Frame) contractWritesAt(ci *calleeInfo, cc *ssa.CallCommon, m *ModSet, avail func(ssa.Value) bool, depth int) {
+	fc := ci.fc
+	if fc.ModAll {
+		fr.c.note("callee %s modifies everything: loop havocs all heaps", shortKey(fc.Key))
+		m.all = true
+		return
+	}
+	if !fc.Pure {
+		m.alloc = true
+	}
+	for _, g := range fc.GhostAts {
+		m.ghosts[g.Var] = true
+	}
+	_, names := fr.c.V.signatureOf(fc)
+	var actuals []ssa.Value
+	if cc.IsInvoke() {
+		actuals = append(actuals, cc.Value)
+	}
+	actuals = append(actuals, cc.Args...)
+	for _, cl := range fc.Modifies {
+		if g, ok := cl.E.(EGhost); ok {
+			m.ghosts[g.Name] = true
+			continue
+		}
+		rp := rootParam(cl.E)
+		var actual ssa.Value
+		for i, n := range names {
+			if n == rp && i < len(actuals) {
+				actual = actuals[i]
+			}
+		}
+		if actual != nil {
+			root := rootValue(actual)
+			if isAllocation(root) && !avail(root) {
+				m.alloc = true // fresh object of this iteration
+				continue
+			}
+			if avail(root) && avail(actual) && depth == 0 {
+				// precise: evaluate the clause with the actual's term
+				if fr.preciseClauseAt(fc, cl, names, actuals, avail, m) {
+					continue
+				}
+			}
+		}
+		before := m.all
+		fr.modClauseCoarse(fc, cl.E, m)
+		if m.all && !before {
+			fr.c.note("modifies clause %q of %s could not be localised: loop havocs all heaps", cl.Src, shortKey(fc.Key))
+		}
+	}
+}
+
+// preciseClauseAt evaluates one modifies clause with the terms of the actual arguments that
+// are available at the loop header (others are bound to an unusable placeholder).
+func (fr *Frame) preciseClauseAt(fc *FuncContract, cl Clause, names []string, actuals []ssa.Value, avail func(ssa.Value) bool, m *ModSet) (ok bool) {
+	defer func() {
+		if r := recover(); r != nil {
+			ok = false
+		}
+	}()
+	env := &Env{c: fr.c, pkg: fr.c.V.pkgOfKey(fc.Key), vars: map[string]Binding{}, st: fr.st}
+	if dp := fr.c.V.P.ByPath[fc.DeclPkg]; dp != nil {
+		env.pkg = dp.Types
+	}
+	sig, _ := fr.c.V.signatureOf(fc)
+	for i, a := range actuals {
+		if i >= len(names) || !avail(a) {
+			continue
+		}
+		var ty types.Type = a.Type()
+		if sig != nil {
+			if pt := paramType(sig, i); pt != nil {
+				if _, isTP := pt.(*types.TypeParam); !isTP {
+					ty = pt
+				}
+			}
+		}
+		env.vars[names[i]] = Binding{fr.val(a), ty}
+	}
+	tmp := &FuncContract{Key: fc.Key, Modifies: []Clause{cl}, Loops: map[int]*LoopContract{}}
+	pm := fr.preciseModSet(tmp, env)
+	if pm.all {
+		return false
+	}
+	for hn, ls := range pm.locs {
+		m.locs[hn] = append(m.locs[hn], ls...)
+	}
+	for hn, rs := range pm.regions {
+		m.regions[hn] = append(m.regions[hn], rs...)
+	}
+	for hn := range pm.heapAll {
+		m.heapAll[hn] = true
+	}
+	for g := range pm.ghosts {
+		m.ghosts[g] = true
+	}
+	return true
 }
 
 // contractWrites over-approximates a callee's modifies clause syntactically.
@@ -569,6 +739,9 @@ func (fr *Frame) autoInvariants(li *loopInfo) []func(get func(*ssa.Phi) Term) (T
 		if _, isInt := intInfoOf(phi.Type()); !isInt {
 			continue
 		}
+		if fr.c.V.disabledAuto[autoKey(fr.fn, li.ordinal, phi.Comment)] {
+			continue
+		}
 		var entryConst *ssa.Const
 		dir := 0
 		okShape := true
@@ -613,11 +786,11 @@ func (fr *Frame) autoInvariants(li *loopInfo) []func(get func(*ssa.Phi) Term) (T
 		c0 := fr.constVal(entryConst)
 		if dir > 0 {
 			out = append(out, func(get func(*ssa.Phi) Term) (Term, string) {
-				return app(SBool, ">=", get(ph), c0), fmt.Sprintf("counter %s never below its initial value", ph.Comment)
+				return app(SBool, ">=", get(ph), c0), fmt.Sprintf("auto[%s] counter %s never below its initial value", autoKey(fr.fn, li.ordinal, ph.Comment), ph.Comment)
 			})
 		} else {
 			out = append(out, func(get func(*ssa.Phi) Term) (Term, string) {
-				return app(SBool, "<=", get(ph), c0), fmt.Sprintf("counter %s never above its initial value", ph.Comment)
+				return app(SBool, "<=", get(ph), c0), fmt.Sprintf("auto[%s] counter %s never above its initial value", autoKey(fr.fn, li.ordinal, ph.Comment), ph.Comment)
 			})
 		}
 	}
@@ -714,4 +887,8 @@ func debugRefName(dr *ssa.DebugRef) string {
 		return obj.Name()
 	}
 	return ""
+}
+
+func autoKey(fn *ssa.Function, loop int, name string) string {
+	return fmt.Sprintf("%s|%d|%s", funcKey(fn), loop, name)
 }
